@@ -115,8 +115,9 @@ class CkVal:
 
 # ---- io_uring
 class Ring:
-    def __init__(s):
+    def __init__(s, cap=None):
         s.sq, s.cq = [], []
+        s.cap = cap            # submission-queue capacity (entries rounded up to a power of two, as the kernel does)
 
 
 class UringOp:
@@ -577,7 +578,13 @@ def install(x, rkyv_table=None):
     def f_ring_new(x, a, e):
         if fault(x, 'uring_init'):
             return Err(PStr('injected: io_uring unavailable'))
-        return Ok(Ring())
+        n = x.concretize(x.tobv(a[0]).t) if a else None
+        cap = None
+        if n is not None:
+            cap = 1
+            while cap < max(n, 1):
+                cap *= 2
+        return Ok(Ring(cap))
     fn['io_uring::IoUring::new'] = f_ring_new
     fn['io_uring::opcode::Write::new'] = lambda x, a, e: UringOp('write', a[0], x.deref(a[1]), a[2])
     fn['io_uring::opcode::Read::new'] = lambda x, a, e: UringOp('read', a[0], x.deref(a[1]), a[2])
@@ -597,9 +604,16 @@ def install(x, rkyv_table=None):
     mm[('Ring', 'completion')] = lambda x, r, a, e: r
 
     def ring_push(x, r, a, e):
+        if r.cap is not None and len(r.sq) >= r.cap:
+            return Err(PStr('submission queue is full'))
         r.sq.append(x.deref(a[0]))
         return Ok(UNIT)
     mm[('Ring', 'push')] = ring_push
+    mm[('Ring', 'is_full')] = lambda x, r, a, e: r.cap is not None and len(r.sq) >= r.cap
+    mm[('Ring', 'is_empty')] = lambda x, r, a, e: not r.sq
+    mm[('Ring', 'len')] = lambda x, r, a, e: BV(bv64(len(r.sq)), 64)
+    mm[('Ring', 'capacity')] = lambda x, r, a, e: BV(bv64(r.cap if r.cap is not None else 4096), 64)
+    mm[('Ring', 'sync')] = lambda x, r, a, e: UNIT
 
     def ring_submit(x, r, a, e):
         if fault(x, 'uring_submit'):
